@@ -121,6 +121,7 @@ let handle_hist (line : string) =
                           nontrivial := true;
                           true
                       | "C", [] -> this := copy_from m !this !other; nontrivial := true; true
+                      | "CS", [] -> this := copy_from m !this !this; nontrivial := true; true
                       | _ -> failwith ("bad op " ^ opt)
                     in
                     if !bad = None then begin
@@ -159,9 +160,92 @@ let handle_dsp (line : string) =
       | _ -> failwith ("bad D " ^ line))
   | _ -> failwith ("bad D " ^ line)
 
+(* ---- generated-code stage of C09 (harness/genrun/phys_c09.go): physical accessors of the generated types and
+   the descriptor wiring they use, against the Flocq model (Descriptor/Physical.v through Gen/HistoryPhys.v:
+   phys_set = the generated Set<Signal>(float64), phys_get = the generated <Signal>() float64) *)
+let s_of_bytes (b : z list) : string =
+  "s:" ^ String.concat "" (List.map (fun c -> Printf.sprintf "%02x" (int_of_z c)) b)
+let b01 b = if b then 1 else 0
+let fhex x = hex_of_z (bits_of_f64 x)
+let msg_sig pkg mi si =
+  let db = db_of pkg in
+  let m = List.nth db.db_messages (int_of_string ("0x" ^ mi)) in
+  let i = int_of_string ("0x" ^ si) in
+  (m, i, List.nth m.msg_signals i)
+let phys_text m st i =
+  match phys_get m st (z_to_nat_int i) with Some r -> fhex r | None -> "none"
+
+(* at most 12 reported mismatches per kind of observation, so that every kind that disagrees is shown *)
+let pm_shown : (string, int) Hashtbl.t = Hashtbl.create 8
+let pmismatch (line : string) (expected : string) =
+  incr n_mismatch;
+  let k = String.sub line 0 2 in
+  let c = try Hashtbl.find pm_shown k with Not_found -> 0 in
+  Hashtbl.replace pm_shown k (c + 1);
+  if c < 12 then Printf.printf "MISMATCH %s || model=%s\n" line expected
+
+let handle_phys (line : string) =
+  match Str.split (Str.regexp " => ") line with
+  | [ lhs; rhs ] -> (
+      match split_ws lhs with
+      | [ "PW"; pkg; mi; si ] ->
+          let expected =
+            try
+              let _, _, s = msg_sig pkg mi si in
+              Printf.sprintf "1 1 %s %s %s %d %d %d %d %d %s %s %s %s %s" (s_of_bytes s.s_name) (hex_of_z s.s_start)
+                (hex_of_z s.s_length) (b01 s.s_big_endian) (b01 s.s_signed) (b01 s.s_float) (b01 s.s_multiplexer)
+                (b01 s.s_multiplexed) (hex_of_z s.s_mux_value) (hex_of_z s.s_offset) (hex_of_z s.s_scale)
+                (hex_of_z s.s_min) (hex_of_z s.s_max)
+            with Failure _ | Invalid_argument _ -> "no such signal in the denoted database" in
+          note_case "PW" line;
+          if expected <> rhs then pmismatch line expected
+      | [ "PA"; pkg; mi; si ] ->
+          (* which signals get physical accessors: hasPhysicalRepresentation as modelled for C11 (Gen/Api.v has_physical:
+             multi-bit and (factor not in {0,1} or offset <> 0 or a declared range narrower than the raw range)) *)
+          let _, _, s = msg_sig pkg mi si in
+          let expected = if has_physical s then "1" else "0" in
+          note_case ~nontrivial:(expected = "1") "PA" line;
+          if expected <> rhs then pmismatch line expected
+      | [ "PR"; pkg; mi; si; arg ] ->
+          let m, i, s = msg_sig pkg mi si in
+          let v = raw_set_value s (field_of_text s arg) in
+          let st = List.mapi (fun j x -> if j = i then v else x) (reset_state m) in
+          let expected = Printf.sprintf "%s %s" (text_of_field s v) (phys_text m st i) in
+          note_case ~nontrivial:(Z.eqb v (z_of_int 0) = false) "PR" line;
+          if expected <> rhs then pmismatch line expected
+      | [ "PS"; pkg; mi; si; x ] ->
+          let m, i, s = msg_sig pkg mi si in
+          let xb = z_of_hex x in
+          if phys_okb s xb then begin
+            let st0 = reset_state m in
+            let st0 = if s.s_multiplexed then (match mux_index m with Some k -> raw_set m st0 k s.s_mux_value | None -> st0) else st0 in
+            let st = phys_set m st0 (z_to_nat_int i) xb in
+            let v = List.nth st i in
+            let expected = Printf.sprintf "%s %s %s" (text_of_field s v) (phys_text m st i) (hex_of_data (frame_of m st).fr_data) in
+            note_case ~nontrivial:(Z.eqb v (z_of_int 0) = false) "PS" line;
+            if expected <> rhs then pmismatch line expected
+          end else note_case ~nontrivial:false "PS-outside-class" line
+      | [ "PG"; pkg; mi; data ] ->
+          let db = db_of pkg in
+          let m = List.nth db.db_messages (int_of_string ("0x" ^ mi)) in
+          let f = { fr_id = m.msg_id; fr_length = m.msg_length; fr_data = data_of_hex data; fr_remote = false; fr_extended = m.msg_extended } in
+          let ok, st = step m (reset_state m) (reset_state m) (OpUnmarshal f) in
+          let idx = match split_ws rhs with
+            | [ _; l ] -> List.map (fun t -> int_of_string ("0x" ^ List.hd (String.split_on_char ':' t))) (String.split_on_char ',' l)
+            | _ -> [] in
+          let expected = Printf.sprintf "%s %s" (if ok then "K" else "E")
+              (String.concat "," (List.map (fun i ->
+                   let s = List.nth m.msg_signals i in
+                   Printf.sprintf "%x:%s:%s" i (text_of_field s (List.nth st i)) (phys_text m st i)) idx)) in
+          note_case ~nontrivial:(data <> "0000000000000000") "PG" line;
+          if expected <> rhs then pmismatch line expected
+      | _ -> failwith ("bad physical-stage line " ^ line))
+  | _ -> failwith ("bad physical-stage line " ^ line)
+
 let handle line =
   if String.length line > 2 && String.sub line 0 2 = "H " then handle_hist line
   else if String.length line > 2 && String.sub line 0 2 = "D " then handle_dsp line
+  else if String.length line > 3 && List.mem (String.sub line 0 3) [ "PW "; "PA "; "PR "; "PS "; "PG " ] then handle_phys line
   else if String.length line > 4 && String.sub line 0 4 = "PKG " then ()
   else failwith ("unparsable line: " ^ line)
 
